@@ -104,7 +104,7 @@ type scenario struct {
 	prefetch int
 }
 
-// grantOver12h: every incarnation of the zone is delegated with min(NS, DS) TTL ≥ 12 h,
+// grantOver12h: some incarnation of the zone is delegated with min(NS, DS) TTL ≥ 12 h,
 // i.e. the 12 h ceiling (not the TTLs) decided its stored lease.
 func (s *scenario) grantOver12h(zone string, lin int) bool {
 	for _, i := range s.named(zone) {
@@ -112,11 +112,11 @@ func (s *scenario) grantOver12h(zone string, lin int) bool {
 		if i.signed && lin == 0 && i.dsTTL < l {
 			l = i.dsTTL
 		}
-		if time.Duration(l)*time.Second < ceiling {
-			return false
+		if time.Duration(l)*time.Second >= ceiling {
+			return true
 		}
 	}
-	return true
+	return false
 }
 
 var cur *scenario
